@@ -9,6 +9,20 @@ use proptest::prelude::*;
 use serde::{Deserialize, Serialize};
 use serde_json::Value;
 
+/// Signatures carry no ':' (the driver shrinks within the text before the first ':'; with a
+/// colon-free signature a failure can only shrink to a case with exactly the same signature, so an
+/// unknown failure can never be minimised into a tolerated known one). Panics keep their form.
+fn vfail(sig: impl Into<String>, detail: impl Into<String>) -> Verdict {
+    Verdict::fail(nsig(&sig.into()), detail)
+}
+fn nsig(s: &str) -> String {
+    if s.starts_with("panic:") {
+        s.to_string()
+    } else {
+        s.trim_end_matches(':').replace(':', "/")
+    }
+}
+
 pub const C52_PL: &str = include_str!("../../prolog/c52.pl");
 
 #[derive(Clone, Debug, Serialize, Deserialize)]
@@ -134,10 +148,10 @@ fn run_seq(s: &mut Session, seed: &Option<T>, calls: &[Call], what: &str) -> Run
         },
         Outcome::Panic(m) => {
             let loc = m.split_whitespace().next().unwrap_or("?").to_string();
-            Run::Stop(Verdict::fail(format!("panic:{loc}"), format!("{what}: {goal} panicked: {m}")))
+            Run::Stop(vfail(format!("panic:{loc}"), format!("{what}: {goal} panicked: {m}")))
         }
         Outcome::Harness(m) => Run::Stop(Verdict::Discard(format!("harness:{}", m.chars().take(40).collect::<String>()))),
-        other => Run::Stop(Verdict::fail("seq-outcome:", format!("{what}: {goal} gave {}", other.short()))),
+        other => Run::Stop(vfail("seq-outcome:", format!("{what}: {goal} gave {}", other.short()))),
     }
 }
 
@@ -181,7 +195,7 @@ pub fn check(env: &mut Env, case: &Case) -> Verdict {
             };
             for (c, r) in calls.iter().zip(&r1) {
                 if let Err((sig, d)) = in_range(c, r) {
-                    return Verdict::fail(format!("range:{sig}"), d);
+                    return vfail(format!("range:{sig}"), d);
                 }
             }
             let mut classes: Vec<&str> = vec![];
@@ -213,7 +227,7 @@ pub fn check(env: &mut Env, case: &Case) -> Verdict {
                             Call::Maybe => "maybe0",
                             Call::Int { .. } => "random_integer3",
                         };
-                        return Verdict::fail(
+                        return vfail(
                             format!("not-reproducible:{which}:{kind}"),
                             format!("after set_random(seed({})) call #{} {:?} gave {} first and {} on the re-run ({which})", seed.as_ref().unwrap().text(), i + 1, calls[i], r1[i].text(), other[i].text()),
                         );
@@ -260,18 +274,18 @@ pub fn check(env: &mut Env, case: &Case) -> Verdict {
             let o = env.a.ask_once(&goal, "[]");
             let seed_form = matches!(a, T::Cmp(f, args) if f == "seed" && args.len() == 1);
             match &o {
-                Outcome::Panic(m) => Verdict::fail(format!("panic:{}", m.split_whitespace().next().unwrap_or("?")), format!("{goal} panicked: {m}")),
+                Outcome::Panic(m) => vfail(format!("panic:{}", m.split_whitespace().next().unwrap_or("?")), format!("{goal} panicked: {m}")),
                 Outcome::Harness(m) => Verdict::Discard(format!("harness:{}", m.chars().take(40).collect::<String>())),
                 Outcome::Ex(_) => match o.formal() {
                     Some(f) if expected.iter().any(|e| e.eq_struct(&f)) => Verdict::pass(true, &["error-case"]),
                     Some(T::Cmp(n, _)) if *which == 1 && !seed_form && !matches!(a, T::Var(_)) && (n == "type_error" || n == "domain_error") => Verdict::pass(true, &["error-case", "non-seed-term"]),
-                    _ => Verdict::fail(format!("wrong-error:{}", if *which == 0 { "random_integer3" } else { "set_random1" }), format!("{goal} gave {}; expected one of {:?}", o.short(), expected.iter().map(|e| e.text()).collect::<Vec<_>>())),
+                    _ => vfail(format!("wrong-error:{}", if *which == 0 { "random_integer3" } else { "set_random1" }), format!("{goal} gave {}; expected one of {:?}", o.short(), expected.iter().map(|e| e.text()).collect::<Vec<_>>())),
                 },
                 Outcome::Sols(v) => {
                     if *which == 1 && !seed_form && !matches!(a, T::Var(_)) && v.is_empty() {
                         Verdict::pass(true, &["error-case", "non-seed-term"])
                     } else {
-                        Verdict::fail(format!("no-error:{}", if *which == 0 { "random_integer3" } else { "set_random1" }), format!("{goal} gave {}; expected one of {:?}", o.short(), expected.iter().map(|e| e.text()).collect::<Vec<_>>()))
+                        vfail(format!("no-error:{}", if *which == 0 { "random_integer3" } else { "set_random1" }), format!("{goal} gave {}; expected one of {:?}", o.short(), expected.iter().map(|e| e.text()).collect::<Vec<_>>()))
                     }
                 }
                 Outcome::Limit => Verdict::Discard("limit".into()),
@@ -283,14 +297,14 @@ pub fn check(env: &mut Env, case: &Case) -> Verdict {
             let goal = format!("c52_draws(200, i({l},{h}), Zs)");
             let vals = match env.a.ask_once(&goal, "Zs") {
                 Outcome::Sols(v) if v.len() == 1 => items(&v[0]).unwrap_or_default(),
-                Outcome::Panic(m) => return Verdict::fail(format!("panic:{}", m.split_whitespace().next().unwrap_or("?")), format!("{goal} panicked: {m}")),
-                other => return Verdict::fail("spread-outcome:", format!("{goal} gave {}", other.short())),
+                Outcome::Panic(m) => return vfail(format!("panic:{}", m.split_whitespace().next().unwrap_or("?")), format!("{goal} panicked: {m}")),
+                other => return vfail("spread-outcome:", format!("{goal} gave {}", other.short())),
             };
             let c = Call::Int { l: l.clone(), h: h.clone() };
             let mut seen = [false; 4];
             for v in &vals {
                 if let Err((sig, d)) = in_range(&c, v) {
-                    return Verdict::fail(format!("range:{sig}"), d);
+                    return vfail(format!("range:{sig}"), d);
                 }
                 if let T::Cmp(_, a) = v {
                     if let T::Int(x) = &a[0] {
@@ -299,21 +313,21 @@ pub fn check(env: &mut Env, case: &Case) -> Verdict {
                 }
             }
             if vals.len() != 200 || seen.iter().any(|s| !s) {
-                return Verdict::fail("degenerate:random_integer3:width4", format!("200 draws from [{l},{h}) hit only the offsets {:?}", seen));
+                return vfail("degenerate:random_integer3:width4", format!("200 draws from [{l},{h}) hit only the offsets {:?}", seen));
             }
             // (b) a 2^200-wide range: some draw uses the high bits (false alarm 2^-200)
             let h2 = l + ipow2(200);
             let goal = format!("c52_draws(20, i({l},{h2}), Zs)");
             let vals = match env.a.ask_once(&goal, "Zs") {
                 Outcome::Sols(v) if v.len() == 1 => items(&v[0]).unwrap_or_default(),
-                Outcome::Panic(m) => return Verdict::fail(format!("panic:{}", m.split_whitespace().next().unwrap_or("?")), format!("{goal} panicked: {m}")),
-                other => return Verdict::fail("spread-outcome:", format!("{goal} gave {}", other.short())),
+                Outcome::Panic(m) => return vfail(format!("panic:{}", m.split_whitespace().next().unwrap_or("?")), format!("{goal} panicked: {m}")),
+                other => return vfail("spread-outcome:", format!("{goal} gave {}", other.short())),
             };
             let c2 = Call::Int { l: l.clone(), h: h2.clone() };
             let mut high = false;
             for v in &vals {
                 if let Err((sig, d)) = in_range(&c2, v) {
-                    return Verdict::fail(format!("range:{sig}"), d);
+                    return vfail(format!("range:{sig}"), d);
                 }
                 if let T::Cmp(_, a) = v {
                     if let T::Int(x) = &a[0] {
@@ -324,23 +338,23 @@ pub fn check(env: &mut Env, case: &Case) -> Verdict {
                 }
             }
             if vals.len() != 20 || !high {
-                return Verdict::fail("degenerate:random_integer3:width2^200", format!("20 draws from [{l},{l}+2^200) all lie below {l}+2^190"));
+                return vfail("degenerate:random_integer3:width2^200", format!("20 draws from [{l},{l}+2^200) all lie below {l}+2^190"));
             }
             // (c) maybe/0 and random/1 are not constant over 200 draws
             for (callt, name) in [("m", "maybe0"), ("r", "random1")] {
                 let goal = format!("c52_draws(200, {callt}, Zs)");
                 let vals = match env.a.ask_once(&goal, "Zs") {
                     Outcome::Sols(v) if v.len() == 1 => items(&v[0]).unwrap_or_default(),
-                    other => return Verdict::fail("spread-outcome:", format!("{goal} gave {}", other.short())),
+                    other => return vfail("spread-outcome:", format!("{goal} gave {}", other.short())),
                 };
                 let c = if callt == "m" { Call::Maybe } else { Call::Random };
                 for v in &vals {
                     if let Err((sig, d)) = in_range(&c, v) {
-                        return Verdict::fail(format!("range:{sig}"), d);
+                        return vfail(format!("range:{sig}"), d);
                     }
                 }
                 if vals.len() != 200 || vals.iter().all(|v| v.eq_struct(&vals[0])) {
-                    return Verdict::fail(format!("degenerate:{name}"), format!("200 draws of {name} are all {}", vals.first().map(|t| t.text()).unwrap_or_default()));
+                    return vfail(format!("degenerate:{name}"), format!("200 draws of {name} are all {}", vals.first().map(|t| t.text()).unwrap_or_default()));
                 }
             }
             Verdict::pass(is_big(l), &["spread"])
